@@ -20,7 +20,8 @@ RULE = ('fault enumeration per connect/disconnect cycle: server behaviour at '
         '{ok, wrong, silent, closed, ws refused}} x how the connection ends '
         '{server CLOSE, server silence, dropped connection, failed POST, '
         'client disconnect() from the main task / a message handler / the '
-        'connect handler / the disconnect handler, disconnect(abort=True)} x '
+        'connect handler / the disconnect handler, disconnect(abort=True), '
+        'disconnect() after the write loop died on a failed send} x '
         '1..3 cycles on one client object x client {Client, AsyncClient}; '
         'threaded client under fifo and seeded random cooperative schedules. '
         'distinct = distinct (client, open behaviour, transports, probe, '
@@ -41,7 +42,7 @@ TRANSPORTS = ['polling', 'websocket', 'upgrade']
 PROBES = ['ok', 'wrong', 'silent', 'close', 'refuse']
 ENDERS = ['server-close', 'silence', 'drop', 'post-fail', 'client-main',
           'client-in-message', 'client-in-connect', 'client-in-disconnect',
-          'client-abort']
+          'client-abort', 'write-dead-then-client']
 PI, PT = 2, 1
 
 
@@ -190,6 +191,18 @@ def one_cycle(rec, w, V, case, cyc, openb, transport, probe, ender, rng):
         else:
             srv.ws.server_close()
         want_reason = 'transport error'
+    elif ender == 'write-dead-then-client':
+        # the write loop dies (send fails at connection level) while the read
+        # loop keeps going and the state is still 'connected'; then the
+        # application disconnects
+        if want_tr == 'polling':
+            srv.script['post'] = 'refuse'
+        else:
+            srv.ws.send_fails = True
+        c.call('send', 'doomed')
+        w.quiesce()
+        d = c.call('disconnect')
+        want_reason = 'client disconnect'
     elif ender in ('client-main', 'client-abort'):
         d = c.call('disconnect', abort=(ender == 'client-abort'))
         want_reason = 'client disconnect'
